@@ -9,16 +9,17 @@
 //! partial clause (critical point + saturation curve per pure record).
 use feos::epcsaft::{ElectrolytePcSaftBinaryRecord, ElectrolytePcSaftParameters, ElectrolytePcSaftRecord};
 use feos::gc_pcsaft::{GcPcSaftEosParameters, GcPcSaftRecord};
-use feos::ideal_gas::{DipprRecord, Joback, JobackRecord};
+use feos::ideal_gas::{Dippr, DipprRecord, Joback, JobackRecord};
 use feos::pcsaft::{PcSaft, PcSaftBinaryRecord, PcSaftParameters, PcSaftRecord};
 use feos::saftvrmie::{SaftVRMie, SaftVRMieBinaryRecord, SaftVRMieParameters, SaftVRMieRecord};
 use feos::saftvrqmie::{SaftVRQMie, SaftVRQMieBinaryRecord, SaftVRQMieParameters, SaftVRQMieRecord};
 use feos_core::parameter::{
     BinaryRecord, ChemicalRecord, Identifier, IdentifierOption, Parameter, ParameterHetero, PureRecord, SegmentRecord,
 };
-use feos_core::{Contributions, PhaseEquilibrium, ReferenceSystem, Residual, State};
+use feos_core::{Contributions, EquationOfState, IdealGas, PhaseEquilibrium, ReferenceSystem, Residual, State};
 use feos_verif::configs::{self, Rng};
-use quantity::Temperature;
+use ndarray::arr1;
+use quantity::{Temperature, JOULE, KELVIN, KILO, METER, MOL};
 use serde::de::DeserializeOwned;
 use serde::{Deserialize, Serialize};
 use serde_json::{json, Value};
@@ -438,6 +439,90 @@ fn gc_assembly() -> Value {
 }
 
 // ---------------------------------------------------------------------------------------------
+// ideal-gas models: every DIPPR record and every gc substance assembled from the Joback table is turned into the
+// real model; ln Lambda^3 (the quantity every ideal-gas property derives from), the heat capacity computed directly and
+// entropy / enthalpy / heat capacity of an ideal-gas State are evaluated on the temperature grid.
+
+const IG_GRID: [f64; 5] = [200.0, 300.0, 450.0, 700.0, 1000.0];
+
+fn ideal_rows<I: IdealGas + 'static>(model: I, cp_direct: &dyn Fn(&I, f64) -> f64) -> Value {
+    let model = Arc::new(model);
+    let mut rows = Vec::new();
+    for t in IG_GRID {
+        let lnl = catch_unwind(AssertUnwindSafe(|| model.ln_lambda3(t)[0])).unwrap_or(f64::NAN);
+        let cp = catch_unwind(AssertUnwindSafe(|| cp_direct(&model, t))).unwrap_or(f64::NAN);
+        let st = catch_unwind(AssertUnwindSafe(|| {
+            let eos = Arc::new(EquationOfState::ideal_gas(model.clone()));
+            let v = METER * METER * METER;
+            State::new_nvt(&eos, t * KELVIN, v, &(arr1(&[1.0]) * MOL)).ok().map(|s| {
+                let u = JOULE / (MOL * KELVIN);
+                [
+                    s.molar_isobaric_heat_capacity(Contributions::IdealGas).convert_to(u),
+                    s.molar_entropy(Contributions::IdealGas).convert_to(u),
+                    s.molar_enthalpy(Contributions::IdealGas).convert_to(JOULE / MOL),
+                ]
+            })
+        }))
+        .ok()
+        .flatten();
+        rows.push(json!({"t": t, "ln_lambda3": bits(lnl), "cp": bits(cp),
+            "state": st.map(|x| json!([bits(x[0]), bits(x[1]), bits(x[2])]))}));
+    }
+    Value::Array(rows)
+}
+
+fn ideal_models() -> Value {
+    let mut out = serde_json::Map::new();
+    for (rel, kind) in KINDS {
+        if *kind != "pure:dippr" {
+            continue;
+        }
+        let recs: Vec<PureRecord<DipprRecord>> = match read(rel) {
+            Ok(r) => r,
+            Err(e) => {
+                out.insert(rel.to_string(), json!({"error": e}));
+                continue;
+            }
+        };
+        let mut rows = Vec::new();
+        for (i, r) in recs.iter().enumerate() {
+            let row = match Dippr::new_pure(r.clone()) {
+                Ok(m) => json!({"index": i, "name": r.identifier.name, "ok": true,
+                    "grid": ideal_rows(m, &|m: &Dippr, t: f64| {
+                        m.molar_isobaric_heat_capacity(t * KELVIN, &arr1(&[1.0])).map(|c| c.convert_to(JOULE / (KILO * MOL * KELVIN))).unwrap_or(f64::NAN)
+                    })}),
+                Err(e) => json!({"index": i, "name": r.identifier.name, "ok": false, "error": e.to_string()}),
+            };
+            rows.push(row);
+        }
+        out.insert(rel.to_string(), json!({"kind": "dippr", "rows": rows}));
+    }
+    // Joback: every gc substance from the group table
+    let chems = catch_unwind(|| read::<Vec<ChemicalRecord>>(GC_SUBSTANCES)).ok().and_then(|r| r.ok());
+    let segs = read::<Vec<SegmentRecord<JobackRecord>>>(JOBACK_TABLE);
+    if let (Some(chems), Ok(segs)) = (chems, segs) {
+        let mut rows = Vec::new();
+        for (i, c) in chems.iter().enumerate() {
+            let r = catch_unwind(AssertUnwindSafe(|| Joback::from_segments(vec![c.clone()], segs.clone(), None)));
+            rows.push(match r {
+                Ok(Ok(m)) => {
+                    let rec = m.records().0[0].model_record.clone();
+                    json!({"index": i, "name": c.identifier.name, "ok": true,
+                        "coefs": [bits(rec.a), bits(rec.b), bits(rec.c), bits(rec.d), bits(rec.e)],
+                        "grid": ideal_rows(m, &|m: &Joback, t: f64| {
+                            m.molar_isobaric_heat_capacity(t * KELVIN, &arr1(&[1.0])).map(|c| c.convert_to(JOULE / (MOL * KELVIN))).unwrap_or(f64::NAN)
+                        })})
+                }
+                Ok(Err(e)) => json!({"index": i, "name": c.identifier.name, "ok": false, "error": e.to_string()}),
+                Err(_) => json!({"index": i, "name": c.identifier.name, "ok": false, "error": "panic"}),
+            });
+        }
+        out.insert(JOBACK_TABLE.to_string(), json!({"kind": "joback", "rows": rows}));
+    }
+    json!({"grid": IG_GRID, "models": Value::Object(out)})
+}
+
+// ---------------------------------------------------------------------------------------------
 // support search (partial clause): critical point and saturation curve of each pure record
 
 /// physical (vapour-liquid) critical point: finite, positive temperature, pressure and density
@@ -689,6 +774,7 @@ fn main() {
         binlook.push(json!({"file": b, "collections": colls_json, "result": v}));
     }
     let gc = gc_assembly();
+    let ideal = ideal_models();
     let sup = if cli.opt("--no-support").is_some() { Value::Null } else { support(&cli) };
-    cli.write_impl(&json!({"params_dir": configs::params(), "files": files, "binary_lookup": binlook, "gc": gc, "support": sup}));
+    cli.write_impl(&json!({"params_dir": configs::params(), "files": files, "binary_lookup": binlook, "gc": gc, "ideal": ideal, "support": sup}));
 }
